@@ -20,7 +20,11 @@ THEOREMS = ["GmqttVerif.C09.elem_roundtrip", "GmqttVerif.C09.message_roundtrip",
             "GmqttVerif.C09.session_roundtrip", "GmqttVerif.C09.f30_length_prefix_wraps", "GmqttVerif.C09.recover_refines",
             "GmqttVerif.C09.crash_consistent", "GmqttVerif.C09.subscribe_meaning", "GmqttVerif.C09.unsubscribe_meaning",
             "GmqttVerif.C09.enqueue_meaning", "GmqttVerif.C09.ack_meaning", "GmqttVerif.C09.qos2_meaning",
-            "GmqttVerif.C09.terminate_meaning"]
+            "GmqttVerif.C09.terminate_meaning",
+            # C10, redis backend (Properties/C10Redis.lean): refinement of the memory queue, proved for the single-entry operations
+            "GmqttVerif.C10Redis.redis_refines_mem_init", "GmqttVerif.C10Redis.redis_refines_mem_add",
+            "GmqttVerif.C10Redis.redis_refines_mem_remove", "GmqttVerif.C10Redis.redis_refines_mem_close",
+            "GmqttVerif.C10Redis.sim_new"]
 COMPS = ["redis"]
 GO_EXTRA = ["broker"]
 
@@ -247,6 +251,8 @@ def pred_stores(ops, out):
     if len(out) != len(ops):
         return "driver crashed: " + (out[0] if out else "")
     for op, o in zip(ops, out):
+        if op.startswith("qread") and o.endswith("panic"):
+            continue          # Read before the replay has finished may refuse (the stores' documented contract)
         if o.startswith(("panic", "bad-op")) or o.endswith((" err", " panic")):
             return f"`{op}` -> {o[-60:]}"
     if not ops[-1].startswith("restart"):
@@ -714,21 +720,122 @@ def pred_crash(ops, out):
     return None
 
 def nontrivial_crash(ops, out):
-    """the journal has a crash point inside a multi-command operation of a session that holds unacknowledged messages"""
-    return bool(out) and " k12{" in out[-1] and "rx=[p" in out[-1]
+    """the scan has at least 12 crash points and some restarted broker redelivers a message or a PUBREL to a resumed session"""
+    return bool(out) and " k12{" in out[-1] and ("rx=[p" in out[-1] or "rx=[r" in out[-1])
 
 def canon_crash(ops, out):
+    """compared: the crash scan (every prefix) and, per op, the verdict of the journal-conformance check (`seg=ok` on the model
+    side means: the commands the history model `HOp.cmds` predicts for this op equal the broker's journal segment)"""
     res = []
     for op, o in zip(ops, out):
-        res.append(re.sub(r" JH=\S*", "", o) if op.startswith("crashscan") else "-")
+        if op.startswith("crashscan"):
+            res.append(re.sub(r" JH=\S*", "", o))
+        elif op.startswith("j "):
+            res.append("seg=ok" if not o.startswith("seg=") or o == "seg=skip" else o)
+        else:
+            res.append("-")
     return res
 
+def crash_events(ops, impl_out, segs):
+    """per op: the history steps (Model/RedisHistory.HOp) it amounts to, from the wire op and what the scripted clients saw"""
+    sess = wire.Sessions()
+    conn_cid, conn_ver, online, expiry = {}, {}, {}, {}
+    evs = []
+    for op, line, seg in zip(ops, impl_out, segs):
+        f = op.split()
+        if f[0] != "j":
+            evs.append(None); continue
+        body = re.sub(r" J=\d+$", "", line)
+        ff, pre, conns, acked = sess.step(" ".join(f[1:]), body)
+        kv = dict(x.split("=", 1) for x in ff if "=" in x)
+        ev = []
+        if ff[0] == "conn":
+            name, cid = ff[1], ff[2]
+            h = conns.get(name, ([], []))[0]
+            ca = next((x for x in h if x.startswith("connack(")), None)
+            if ca and ",code=0" in ca:
+                if online.get(cid):
+                    ev.append("skip")             # take-over of an online client: two connections of one id in one op
+                v = int(kv.get("v", 4))
+                conn_cid[name], conn_ver[name] = cid, v
+                expiry[cid] = int(kv.get("se", 0)) if v == 5 else (7200 if kv.get("cs", "1") == "0" else 0)
+                online[cid] = name
+                ev.append(f"con|{cid}|{kv.get('cs', '1')}")
+        elif ff[0] == "sub":
+            cid = conn_cid.get(ff[1])
+            sa = next((x for x in conns.get(ff[1], ([], []))[0] if x.startswith("suback(")), None)
+            if cid and sa:
+                for code in sa[sa.index(",") + 1:-1].split("+"):
+                    if int(code) < 128:
+                        ev.append(f"sub|{cid}")
+        elif ff[0] == "unsub":
+            cid = conn_cid.get(ff[1])
+            if cid and any(x.startswith("unsuback(") for x in conns.get(ff[1], ([], []))[0]):
+                for t in [x for x in ff[3:] if "=" not in x]:
+                    ev.append(f"uns|{cid}|{t}")
+        elif ff[0] == "pub":
+            src = conn_cid.get(ff[1])
+            if src and kv.get("q") == "2" and any(x.startswith("pubrec(") for x in conns.get(ff[1], ([], []))[0]):
+                ev.append(f"rq2|{src}|{kv.get('pid', '0')}")
+        elif ff[0] == "rel":
+            src = conn_cid.get(ff[1])
+            if src:
+                ev.append(f"rel|{src}|{ff[2]}")
+        elif ff[0] == "ack":
+            cid = conn_cid.get(ff[1])
+            for a in acked:
+                if ff[2] == "pubrec" and int(kv.get("code", 0)) < 128:
+                    ev.append(f"rec|{cid}|{a.id}")
+                else:
+                    ev.append(f"ack|{cid}|{a.id}")
+        elif ff[0] in ("close", "disc"):
+            cid = conn_cid.get(ff[1])
+            if cid and online.get(cid) == ff[1]:
+                online[cid] = None
+                if ff[0] == "disc" and "se" in kv and conn_ver.get(ff[1]) == 5 and int(kv["se"]) != 0 and expiry.get(cid, 0) != 0:
+                    expiry[cid] = int(kv["se"])
+                    ev.append(f"exp|{cid}|{kv['se']}")
+                if expiry.get(cid, 0) == 0:
+                    ev.append(f"trm|{cid}")
+        # routed messages (publishes, wills): every RPUSH of the segment; deliveries: what the clients were sent
+        enq = [c.split(",")[1][6:] for c in seg if c.startswith("rpush,queue:")]
+        dlv = {}
+        for name, (h, pl) in conns.items():
+            cid = conn_cid.get(name)
+            if cid is None:
+                continue
+            fresh = [wire.pub_fields(x) for x in pl]
+            fresh = [x for x in fresh if x and x["d"] == 0]
+            if fresh:
+                dlv[cid] = [str(x["id"]) for x in fresh if x["q"] > 0]
+        for c in enq:
+            ev.append(f"enq|{c}")
+        for c, ids in dlv.items():
+            ev.append(f"dlv|{c}|{'+'.join(ids) if ids else '-'}")
+        evs.append("skip" if "skip" in ev else ";".join(ev))
+    return evs
+
 def hint_crash(ops, impl_out):
-    """the Lean side runs `recover` on every prefix of exactly the command sequence the broker issued"""
+    """the Lean side runs `recover` on every prefix of exactly the command sequence the broker issued, and checks that the
+    history model predicts that sequence op by op"""
+    scan = next((o for op, o in zip(ops, impl_out) if op.startswith("crashscan")), "")
+    m = re.search(r" JH=(\S*)", scan)
+    journal = m.group(1).split(";") if m and m.group(1) else []
+    segs, J = [], 0
+    for op, o in zip(ops, impl_out):
+        mm = re.search(r" J=(\d+)$", o)
+        if op.startswith("j ") and mm:
+            segs.append(journal[J:int(mm.group(1))]); J = int(mm.group(1))
+        else:
+            segs.append([])
+    try:
+        evs = crash_events(ops, impl_out, segs)
+    except Exception:
+        evs = [None] * len(ops)
     res = []
     cmap = {}
     q2 = []
-    for op, o in zip(ops, impl_out):
+    for op, o, seg, ev in zip(ops, impl_out, segs, evs):
         f = op.split()
         if f[0] == "j" and f[1] == "conn":
             cmap[f[2]] = f[3]
@@ -737,8 +844,9 @@ def hint_crash(ops, impl_out):
             if f[2] in cmap:
                 q2.append(f"{cmap[f[2]]}|{pid}")
         if f[0] == "crashscan":
-            m = re.search(r" JH=(\S*)", o)
             op = f"crashscan JH={m.group(1) if m else ''} Q2={';'.join(q2)}"
+        elif f[0] == "j" and ev is not None and journal:
+            op = f"{op} JS={';'.join(seg)} EV={ev}"
         res.append(op)
     return res
 
@@ -758,8 +866,8 @@ class CrashStream(core.Stream):
 def streams(tier):
     quick = tier == "quick"
     return [
-        (core.Stream("redis-cmds", "redis", gen_cmds, None, nontrivial_cmds, drive_args=["cmds"], oracle_args=["cmds"]), 3000 if quick else 60000),
-        (core.Stream("redis-codec", "redis", gen_codec, pred_codec, nontrivial_codec, drive_args=["stores"], oracle_args=["stores"]), 2000 if quick else 40000),
+        (core.Stream("redis-cmds", "redis", gen_cmds, None, nontrivial_cmds, drive_args=["cmds"], oracle_args=["cmds"]), 2000 if quick else 60000),
+        (core.Stream("redis-codec", "redis", gen_codec, pred_codec, nontrivial_codec, drive_args=["stores"], oracle_args=["stores"]), 1200 if quick else 40000),
         (core.Stream("redis-stores", "redis", gen_stores, pred_stores, nontrivial_stores, drive_args=["stores"], oracle_args=["stores"]), 400 if quick else 8000),
         (CrashStream("redis-crash", "redis", gen_crash, pred_crash, nontrivial_crash, canon=canon_crash, hint=hint_crash,
                      oracle_args=["wire"], timeout=600), 30 if quick else 1000),
@@ -777,13 +885,18 @@ def run(r):
 RULE = ("redis-crash: wire histories (persistent and non-persistent clients, subscribe with all option values, unsubscribe, QoS 0/1/2 "
         "publishes to online and offline subscribers, partial PUBACK/PUBREC/PUBCOMP/PUBREL flows, closes, clean-start reconnects) on a real "
         "broker with persistence.type=redis over respfake; for every prefix of the write journal a fresh broker is started on the "
-        "dataset and observed; redis-stores: the same at the level of the four store APIs with command-for-command comparison; "
-        "redis-cmds / redis-codec: the command semantics and the encodings. non-trivial = crash point inside a multi-command operation "
-        "of a session that holds unacknowledged messages (crash), journal with a pipeline or drop plus a re-initialisation/removal (stores)")
+        "dataset and observed (compared with Lean `recover` on the same journal prefix), and op by op the journal segment is compared "
+        "with the commands the history model (`HOp.cmds`, the sequence `crash_consistent` quantifies over) predicts; redis-stores: the same at the level of the four store APIs with command-for-command comparison; "
+        "redis-cmds / redis-codec: the command semantics and the encodings. non-trivial = history with at least 12 crash points in which some "
+        "restarted broker redelivers a message or a PUBREL to a resumed session (crash), journal with a pipeline or drop plus a "
+        "re-initialisation/removal (stores), a failing command or vanishing key (cmds), a rejected decode or a value with optional properties (codec)")
 ASSUME = ["respfake (harness/internal/respfake) stands in for redis: documented semantics of the 14 commands used, single-threaded execution; "
           "it also passes /repo's own redis test-suite (persistence.TestRedis)",
           "crash points lie between redis commands (a Send…Flush pipeline counts as its commands in order); torn writes inside one command, "
           "pool exhaustion and network errors are not covered",
           "an acknowledgement is taken as sent before crash point k only if the operation that produced it had issued all its commands "
           "within the first k (the ack is written after them)",
+          "journal conformance is skipped for the rest of a history once a client id is taken over by a second connection while "
+          "online (two connections of one id inside one op); payloads the wire does not determine (stored session record, encoded "
+          "subscription, queued element) are taken from the journal command when the history step is reconstructed",
           "expiry does not fire during a history (message expiry 2 h, in-flight expiry 30 s, histories take milliseconds)"]
